@@ -25,9 +25,12 @@ func VH_C17_pause_events() {
 		mc.Metadata.MonitorId = "mon" + strconv.Itoa(i)
 		mc.WithEventTypes(nil)
 		mon := NewMonitor(context.Background(), nil, &metric.VFakeStorage{}, mc, func(ev kemtypes.KubeEvent) { events++ }, log.NewNop())
+		// a monitor may still be in its Synchronization phase (events locked) when the
+		// shutdown is requested; the running handler unlocks it afterwards
+		locked := zz.Bool("still_synchronizing" + strconv.Itoa(i))
 		mk := func(ns string) *resourceInformer {
 			ei := newResourceInformer(ns, "", &resourceInformerConfig{mstor: &metric.VFakeStorage{}, eventCb: mon.eventCb, monitor: mc, logger: log.NewNop()})
-			ei.eventCbEnabled = true
+			ei.eventCbEnabled = !locked
 			return ei
 		}
 		st := mk("ns-a")
@@ -41,8 +44,10 @@ func VH_C17_pause_events() {
 		mgr.Monitors[mc.Metadata.MonitorId] = mon
 	}
 	// before the pause events flow
-	infs[0].OnAdd(vhC02Object("ns-a", "p", "x"), false)
-	zz.Assert(events == 1, "events_flow_before_shutdown")
+	if infs[0].eventCbEnabled {
+		infs[0].OnAdd(vhC02Object("ns-a", "p", "x"), false)
+		zz.Assert(events == 1, "events_flow_before_shutdown")
+	}
 	mgr.PauseHandleEvents()
 	before := events
 	for i, ei := range infs {
@@ -59,5 +64,10 @@ func VH_C17_pause_events() {
 		zz.Assert(len(ei.eventBuf) == 0, "no_event_buffered_after_shutdown_request")
 	}
 	zz.Assert(events == before, "no_cluster_event_after_shutdown_request")
+	// the Synchronization handler that was running returns and unlocks its monitors
+	for _, mon := range mgr.Monitors {
+		mon.EnableKubeEventCb()
+	}
+	zz.Assert(events == before, "no_cluster_event_released_by_a_later_unlock")
 	zz.Reach("end")
 }
